@@ -207,7 +207,7 @@ def z3_text(z3, tpl, V):
     return z3.Concat(*parts) if len(parts) > 1 else parts[0]
 
 
-def mk_vars(z3, tag, shape, k, solver, maxlen):
+def mk_vars(z3, tag, shape, k, solver, maxlen, fname_len=None):
     """variables of one definition, constrained by the grammar of accepted definition elements"""
     V = {}
     R = z3.Re
@@ -223,7 +223,7 @@ def mk_vars(z3, tag, shape, k, solver, maxlen):
 
     def var(piece, regex):
         v = z3.String("%s_%s" % (tag, "_".join(map(str, piece))))
-        solver.add(z3.InRe(v, regex), z3.Length(v) <= maxlen)
+        solver.add(z3.InRe(v, regex), z3.Length(v) <= ((fname_len or maxlen) if piece[0] == "fname" else maxlen))
         V[piece] = v
 
     var(("name",), ident)
@@ -237,13 +237,13 @@ def mk_vars(z3, tag, shape, k, solver, maxlen):
     return V
 
 
-def inject_query(shape1, k1, shape2, k2, maxlen, timeout_s, exclude_known=True):
+def inject_query(shape1, k1, shape2, k2, maxlen, timeout_s, exclude_known=True, fname_len=None):
     import z3
     s = z3.Solver()
     s.set("timeout", int(timeout_s * 1000))
     t1, t2 = template(shape1, k1), template(shape2, k2)
-    V1 = mk_vars(z3, "a", shape1, k1, s, maxlen)
-    V2 = mk_vars(z3, "b", shape2, k2, s, maxlen)
+    V1 = mk_vars(z3, "a", shape1, k1, s, maxlen, fname_len)
+    V2 = mk_vars(z3, "b", shape2, k2, s, maxlen, fname_len)
     # field names within one definition are distinct (they are keys of one mapping)
     for V, k in ((V1, k1), (V2, k2)):
         for i in range(k):
@@ -292,7 +292,7 @@ def script_main():
                                           "paths": n, "solver_calls": 0, "solver_s": 0.0, "wall_s": time.time() - t0}))
             return
         s1, k1, s2, k2 = shard["s1"], shard["k1"], shard["s2"], shard["k2"]
-        r = inject_query(s1, k1, s2, k2, shard.get("maxlen", 3), shard.get("timeout", 120))
+        r = inject_query(s1, k1, s2, k2, shard.get("maxlen", 3), shard.get("timeout", 120), fname_len=shard.get("fname_len"))
         res = {"paths": 1, "solver_calls": 1, "solver_s": r["solver_s"], "wall_s": time.time() - t0}
         if r["result"] == "unsat":
             res.update(state="CONFIRMED", message="unsat: no two different definitions of shapes %s/%d, %s/%d hash the same text (strings <= %d)%s"
@@ -314,40 +314,58 @@ HEX = "0123456789abcdef"
 
 
 def printers(h):
-    from pyrtma.compilers.c99 import CDefCompiler
-    from pyrtma.compilers.javascript import JSDefCompiler
-    from pyrtma.compilers.matlab import MatlabDefCompiler
-    from pyrtma.compilers.python import PyDefCompiler
+    """one back end per shard"""
+    which = sh("backend", "c")
+    win = sh("window", None)
+    if win is not None:
+        # python back end: .upper() on a fully symbolic string is too heavy for z3; a 3-character symbolic window slides over the hash
+        base = "0a1b2c3d4e"
+        h = base[:win] + h[win:win + 3] + base[win + 3:]
     m = P.MDF("raw", h, "NAME", 5, pathlib.Path("x.yaml"))
     m.fields.append(P.Field("a", "int32", P.supported_types["int32"]))
-    sd = P.SDF("raw", h, "SNAME", pathlib.Path("x.yaml"))
-    sd.fields.append(P.Field("a", "int32", P.supported_types["int32"]))
     want = h[:8]
-    c = object.__new__(CDefCompiler).generate_hash_id(m)
-    if c != "#define HASH_" + "NAME".ljust(48) + " 0x" + want + "\n":
-        return False, "C header prints another hash value"
-    j = object.__new__(JSDefCompiler).generate_hash_id(m)
-    if j != 'RTMA.HASH.NAME = "' + want + '";\n':
-        return False, "JavaScript prints another hash value"
-    mc = object.__new__(MatlabDefCompiler)
-    mc.struct_name = "RTMA"
-    ml = mc.generate_hash_id(m)
-    if not ml.endswith('= "' + want + '";\n'):
-        return False, "MATLAB prints another hash value"
-    pc = object.__new__(PyDefCompiler)
-    pc.parser = bare_parser()
-    py = pc.generate_msg_def(m)
-    if ("type_hash: ClassVar[int] = 0x" + want.upper() + "\n") not in py:
-        return False, "Python message class carries another hash value"
-    ps = pc.generate_struct(sd)
-    if ("type_hash: ClassVar[int] = 0x" + want.upper() + "\n") not in ps:
-        return False, "Python struct class carries another hash value"
+    if which == "c":
+        from pyrtma.compilers.c99 import CDefCompiler
+        c = object.__new__(CDefCompiler).generate_hash_id(m)
+        if c != "#define HASH_" + "NAME".ljust(48) + " 0x" + want + "\n":
+            return False, "C header prints another hash value"
+    elif which == "js":
+        from pyrtma.compilers.javascript import JSDefCompiler
+        j = object.__new__(JSDefCompiler).generate_hash_id(m)
+        if j != 'RTMA.HASH.NAME = "' + want + '";\n':
+            return False, "JavaScript prints another hash value"
+    elif which == "matlab":
+        from pyrtma.compilers.matlab import MatlabDefCompiler
+        mc = object.__new__(MatlabDefCompiler)
+        mc.struct_name = "RTMA"
+        ml = mc.generate_hash_id(m)
+        if ml != 'RTMA.hash.NAME = "' + want + '";\n':
+            return False, "MATLAB prints another hash value"
+    else:
+        from pyrtma.compilers.python import PyDefCompiler
+        import pyrtma.compilers.python as PYC
+        PYC.dedent = lambda t: t   # textwrap.dedent only strips common leading blanks (stdlib regex on the whole text): cut
+        pc = object.__new__(PyDefCompiler)
+        pc.parser = bare_parser()
+        if which == "py_msg":
+            py = pc.generate_msg_def(m)
+        else:
+            sd = P.SDF("raw", h, "SNAME", pathlib.Path("x.yaml"))
+            sd.fields.append(P.Field("a", "int32", P.supported_types["int32"]))
+            py = pc.generate_struct(sd)
+        key = "type_hash: ClassVar[int] = 0x"
+        i = py.find(key)
+        if i < 0:
+            return False, "no type_hash line"
+        got = py[i + len(key): i + len(key) + 8]
+        if got.lower() != want or py[i + len(key) + 8] != "\n":
+            return False, "Python class carries another hash value"
     return True, ""
 
 
 def h_printers(h: str) -> bool:
     """
-    pre: 8 <= len(h) <= 10 and all(c in HEX for c in h)
+    pre: len(h) == 10 and all(c in HEX for c in h)
     post: _
     """
     return verdict(printers(h))
@@ -355,10 +373,92 @@ def h_printers(h: str) -> bool:
 
 def h_printers_reach(h: str) -> bool:
     """
-    pre: 8 <= len(h) <= 10 and all(c in HEX for c in h)
+    pre: len(h) == 10 and all(c in HEX for c in h)
     post: _
     """
     return reached(printers(h))
+
+
+# ------------------------------------------------------------------ senders stamp the hash into header.version
+def stamp(type_hash, signal_type, as_signal):
+    from engine import cliworld as CW
+    from pyrtma import core_defs as cd
+    c = CW.new_client(module_id=12)
+    sent = []
+    c._sendall = lambda buf: sent.append(buf)
+
+    class FakeSock:
+        def close(self):
+            pass
+    c._sock = FakeSock()
+    try:
+        if as_signal:
+            c.send_signal(signal_type)
+        else:
+            data = CW.SH.shadow_of(cd.MDF_MODULE_READY)() if CW.SHADOW else cd.MDF_MODULE_READY()
+            # the class attribute the generated code carries: any 32-bit value
+            type(data).type_hash = type_hash
+            try:
+                c.send_message(data)
+            finally:
+                type(data).type_hash = cd.MDF_MODULE_READY.type_hash
+    finally:
+        c._connected = False
+    if not sent:
+        return False, "nothing was sent"
+    h = sent[0]
+    if as_signal:
+        if h._reserved != 0 or h._msg_type != signal_type:
+            return False, "send_signal must leave the version field 0"
+    else:
+        if h._reserved != type_hash:
+            return False, "header.version is not the message definition's hash"
+        if h._msg_type != cd.MT_MODULE_READY or h._num_data_bytes != 4 or len(sent) != 2:
+            return False, "frame is not header + payload of the definition"
+    return True, ""
+
+
+def h_stamp(type_hash: int, signal_type: int, as_signal: bool) -> bool:
+    """
+    pre: 0 <= type_hash < 2**32 and -2**31 <= signal_type < 2**31
+    post: _
+    """
+    return verdict(stamp(type_hash, signal_type, as_signal))
+
+
+def h_stamp_reach(type_hash: int, signal_type: int, as_signal: bool) -> bool:
+    """
+    pre: 0 <= type_hash < 2**32 and -2**31 <= signal_type < 2**31
+    post: _
+    """
+    return reached(stamp(type_hash, signal_type, as_signal))
+
+
+# ------------------------------------------------------------------ known finding witness, through the real YAML front end
+def kf_fields_reuse():
+    """two different definitions of B (field-list reuse of A  vs  one field literally named 'fields' of type A) compiled by the
+    real parser (real ruamel.yaml, real sha256): returns True iff their version hashes differ (i.e. the property holds)"""
+    import os
+    import shutil
+    import tempfile
+    d = tempfile.mkdtemp(prefix="verif_c13_")
+    try:
+        base = "message_defs:\n  A:\n    id: 1000\n    fields:\n      x: int32\n"
+        texts = {"reuse.yaml": base + "  B:\n    id: 1001\n    fields: A\n",
+                 "field.yaml": base + "  B:\n    id: 1001\n    fields:\n      fields: A\n"}
+        hashes = []
+        layouts = []
+        for fn, t in texts.items():
+            with open(os.path.join(d, fn), "w") as f:
+                f.write(t)
+            p = P.Parser(import_coredefs=False)
+            p.logger.disabled = True
+            p.parse(pathlib.Path(d) / fn)
+            hashes.append(p.message_defs["B"].hash)
+            layouts.append([(f.name, f.type_name) for f in p.message_defs["B"].fields])
+        return not (hashes[0] == hashes[1] and layouts[0] != layouts[1])
+    finally:
+        shutil.rmtree(d, ignore_errors=True)
 
 
 if __name__ == "__main__":
